@@ -689,3 +689,56 @@ func realReturnValues(ret *ssa.Return) []ssa.Value {
 	}
 	return out
 }
+
+
+// GoTargetName names what a go statement runs. "go func() { f(x) }()" whose
+// literal does nothing but that one call is the spelling "go f(x)" with the
+// arguments evaluated a little later; it is reported as a start of f.
+func (p *Program) GoTargetName(g *ssa.Go) string {
+	name := p.CalleeName(g.Common())
+	var lit *ssa.Function
+	switch v := g.Common().Value.(type) {
+	case *ssa.MakeClosure:
+		lit, _ = v.Fn.(*ssa.Function)
+	case *ssa.Function:
+		if v.Parent() != nil {
+			lit = v
+		}
+	}
+	if lit == nil || len(lit.Blocks) != 1 {
+		return name
+	}
+	var only *ssa.Call
+	n := 0
+	for _, in := range lit.Blocks[0].Instrs {
+		switch x := in.(type) {
+		case *ssa.Call:
+			only = x
+			n++
+		case *ssa.Store, *ssa.Send, *ssa.Go, *ssa.Defer, *ssa.MapUpdate, *ssa.Select, *ssa.Panic:
+			return name
+		}
+	}
+	if n == 1 && only != nil {
+		return p.CalleeName(only.Common())
+	}
+	return name
+}
+
+// ThinGoWrapper reports whether fn is such a literal (its single call is then
+// not a "synchronous call" of the callee in the starting function's sense).
+func (p *Program) ThinGoWrapper(fn *ssa.Function) bool {
+	if fn == nil || fn.Parent() == nil || !strings.HasSuffix(p.Name(fn), "$go") || len(fn.Blocks) != 1 {
+		return false
+	}
+	n := 0
+	for _, in := range fn.Blocks[0].Instrs {
+		switch in.(type) {
+		case *ssa.Call:
+			n++
+		case *ssa.Store, *ssa.Send, *ssa.Go, *ssa.Defer, *ssa.MapUpdate, *ssa.Select, *ssa.Panic:
+			return false
+		}
+	}
+	return n == 1
+}
